@@ -215,8 +215,19 @@ func (w *Worker) Build(text string, gen Gen) (*Built, error) {
 // OK reports whether the grammar was accepted and can be run.
 func (b *Built) OK() bool { return b.Err == "" && b.Panic == "" && b.Prefix != nil }
 
+// RunWarm performs one more Parse call WITHOUT the cold start: the package-level
+// state of the runtime and the pools are what the previous call of this
+// process left behind (a second call in the same process).
+func (b *Built) RunWarm(input []byte, o *rtapi.RunOpts, script map[int]*rtapi.Block) *rtapi.Obs {
+	return b.run(input, o, script, false)
+}
+
 // Run performs one Parse call.
 func (b *Built) Run(input []byte, o *rtapi.RunOpts, script map[int]*rtapi.Block) *rtapi.Obs {
+	return b.run(input, o, script, true)
+}
+
+func (b *Built) run(input []byte, o *rtapi.RunOpts, script map[int]*rtapi.Block, cold bool) *rtapi.Obs {
 	idx := b.RT.Index()
 	if current[idx] != b {
 		if err := b.RT.Load(b.Prefix); err != nil {
@@ -238,8 +249,10 @@ func (b *Built) Run(input []byte, o *rtapi.RunOpts, script map[int]*rtapi.Block)
 	// (replayable, and comparable with a fresh process of the compiled parser),
 	// never of the cases or the other grammars run before it in this process.
 	// Histories of several calls are C18's subject.
-	vsync.Reset()
-	b.RT.ResetGlobals()
+	if cold {
+		vsync.Reset()
+		b.RT.ResetGlobals()
+	}
 	obs := b.RT.Run(input, o, ctx)
 	if len(vsync.Violations) > 0 {
 		obs.Pool = vsync.Violations
